@@ -46,16 +46,44 @@ type episode struct {
 
 func dutyID(d core.Duty) int { return int(d.Slot)*16 + int(d.Type) }
 
+// realDeadlineFunc returns the repo's NewDutyDeadlineFunc for a chain configuration. The returned
+// function is a pure closure over the fetched configuration, so it is built once per configuration
+// (the beacon mock is an HTTP server; starting one per episode made the driver fail with "client is
+// not active" on a heavily loaded machine). Creation is retried.
+var dlFuncCache = map[[2]int64]core.DeadlineFunc{}
+
+func realDeadlineFunc(genesis time.Time, slotMs int64, spe int) core.DeadlineFunc {
+	key := [2]int64{slotMs, int64(spe)}
+	if f, ok := dlFuncCache[key]; ok {
+		return f
+	}
+	var lastErr error
+	for try := 0; try < 20; try++ {
+		ctx, cancel := context.WithCancel(context.Background())
+		bmock, err := beaconmock.New(ctx,
+			beaconmock.WithGenesisTime(genesis),
+			beaconmock.WithSlotDuration(time.Duration(slotMs)*time.Millisecond),
+			beaconmock.WithSlotsPerEpoch(spe))
+		if err == nil {
+			var f core.DeadlineFunc
+			f, err = core.NewDutyDeadlineFunc(ctx, bmock)
+			if err == nil {
+				cancel()
+				dlFuncCache[key] = f
+				return f
+			}
+		}
+		cancel()
+		lastErr = err
+		time.Sleep(time.Duration(50*(try+1)) * time.Millisecond)
+	}
+	panic(fmt.Sprintf("beacon mock for the deadline function could not be created: %v", lastErr))
+}
+
 func newEpisode(slotMs int64, spe int) *episode {
 	ctx, cancel := context.WithCancel(context.Background())
 	genesis := time.Date(2024, 1, 1, 0, 0, 0, 0, time.UTC)
-	bmock, err := beaconmock.New(ctx,
-		beaconmock.WithGenesisTime(genesis),
-		beaconmock.WithSlotDuration(time.Duration(slotMs)*time.Millisecond),
-		beaconmock.WithSlotsPerEpoch(spe))
-	hx.Must(err)
-	f, err := core.NewDutyDeadlineFunc(ctx, bmock)
-	hx.Must(err)
+	f := realDeadlineFunc(genesis, slotMs, spe)
 	clock := clockwork.NewFakeClockAt(genesis)
 	e := &episode{cancel: cancel, clock: clock, genesis: genesis, dlFunc: f,
 		pending: map[int]int64{}, reported: map[int]bool{}, everSched: map[int]bool{}}
